@@ -855,7 +855,37 @@ func TestCollectionSubjects(t *testing.T) {
 			n++
 		}
 	}
-	evid.Exhaustive("collection value x extraction builtin", n)
+	// two extraction calls on two collections, one after the other: what the first one stored stays what it was
+	firsts := []func() []*gen.Node{
+		func() []*gen.Node {
+			return []*gen.Node{gen.NSet("a", gen.NList(str("alpha beta"), str("gamma"))), gen.NCall("grok", id("a"), str("%{WORD:first} %{WORD:second}"))}
+		},
+		func() []*gen.Node {
+			return []*gen.Node{gen.NSet("a", gen.NMap(str("k"), str("alpha beta gamma"))), gen.NCall("grok", id("a"), str("%{WORD:first} %{WORD:second:str} %{WORD:third}"), gen.NBool(false))}
+		},
+		func() []*gen.Node {
+			return []*gen.Node{gen.NSet("a", gen.NList(str("keep this text"), gen.NInt(12345))), gen.NCall("grok", id("a"), str("%{GREEDYDATA:whole}"))}
+		},
+	}
+	seconds := []func() []*gen.Node{
+		func() []*gen.Node { return []*gen.Node{gen.NSet("b", gen.NList(str("XXXXXXXXXXXXXXXXXXXXXXXXXX"))), gen.NCall("sql_cover", id("b"))} },
+		func() []*gen.Node { return []*gen.Node{gen.NSet("b", gen.NList(str("YYYYY YYYY"), str("ZZZZZ"))), gen.NCall("grok", id("b"), str("%{WORD:other}"))} },
+		func() []*gen.Node { return []*gen.Node{gen.NSet("b", gen.NMap(str("q"), str("WWWWWWWWWWWWWWWWWWWW"))), gen.NCall("xml", id("b"), str("/a"), id("out"))} },
+		func() []*gen.Node { return []*gen.Node{gen.NSet("b", gen.NList(str("VVVVVVVVVVVVVVVVVVVVVVVVVVVVVV"))), gen.NCall("default_time", id("b"))} },
+		func() []*gen.Node { return []*gen.Node{gen.NSet("b", gen.NList(str("UUUUU UUUUUUUUU UUUU"))), gen.NCall("grok", id("b"), str("%{NOTSPACE:n1} %{NOTSPACE:n2}"))} },
+	}
+	for fi, f := range firsts {
+		for si, sc := range seconds {
+			prog := append(f(), sc()...)
+			prog = append(prog, gen.NCall("probe", str("stored"), id("first"), id("second"), id("third"), id("whole")))
+			c := sem.NewCase(gen.FixAll(prog))
+			c.Fields = map[string]any{"keep": "k"}
+			c.Tags = map[string]string{}
+			judge(t, "collection-subject", c, fmt.Sprintf("collsubj2/%d/%d", fi, si), true, "collection-subject-sequence")
+			n++
+		}
+	}
+	evid.Exhaustive("collection value x extraction builtin; capture from one collection, then another extraction on another collection", n)
 }
 
 func TestReplays(t *testing.T) {
